@@ -179,16 +179,17 @@ def normalise_doc(d, top=True):
     return d
 
 
-def np_columns(data_rows):
+def np_columns(data_rows, numtype="f8"):
     """rows of cells -> a numpy record array with one field per column (c0..c7), the input form
-    fill.numpy supports for every primitive (sliced with boolean masks by the sparse containers)"""
+    fill.numpy supports for every primitive (sliced with boolean masks by the sparse containers).
+    `numtype`: dtype of the numeric columns ("f8", "f4", or "i8" for integral data)"""
     import numpy as np
 
     n = len(data_rows)
     dt = []
     for c in range(gen.NCOLS):
         if c in gen.NUM_COLS:
-            dt.append(("c%d" % c, "f8"))
+            dt.append(("c%d" % c, numtype))
         elif c == gen.BOOL_COL:
             dt.append(("c%d" % c, "?"))
         elif c == gen.VEC_COL:
@@ -362,7 +363,7 @@ class PyExec:
             import numpy as np
 
             rows, mode = op[2], op[3]
-            data = np_columns([r[0] for r in rows])
+            data = np_columns([r[0] for r in rows], op[4] if len(op) > 4 else "f8")
             before = data.tobytes()
             try:
                 if mode == "unit":
